@@ -12,11 +12,11 @@ Agent frames (`Uniflow.Agent`, repaired matching):
 
 Breakpoint machine (`Uniflow.Breakpoint`); the driver keeps the set of *all* states reachable under every
 schedule (calls may be issued before the system is quiescent); observations are those of the quiescent ones:
-  bp                         NewDebugger + NewBreakpoint + AddBreakpoint, run to quiescence     → ok
-  hook                       one more packet hook enters OnFrame; all schedules to quiescence   → ok
-  call <prog>                one more API call (next|done|close|pause|step|remove|dclose)        → ok
+  bp [k]                     NewDebugger + AddBreakpoint of k (default 1, ≤ 8) new breakpoints    → ok
+  hook [b]                   one more packet hook enters OnFrame of breakpoint b (default 0)     → ok
+  call <prog> [b]            one more API call (next|done|close|pause|step|remove|dclose) on b   → ok
   expect <observation…>      is this observation (`Breakpoint.observe`; a token `x*` is a wildcard) one of the model's?  → ok | not-in-model …
-  must                       what every quiescent state agrees on: released=<n|?> held=<1|0|?> (d.rmu) then T|F|b|? per call
+  must                       (also prunes the state set to the states compatible with it) what every quiescent state agrees on: released=<n|?> held=<1|0|?> (d.rmu) cur=<h|-|?>,… (b.current per breakpoint) then T|F|b|? per call
   nobs                       number of distinct observations over the quiescent states
 -/
 import Uniflow.Driver.Core
@@ -61,7 +61,7 @@ def parseKey (sym i o : String) : Option Agent.Key :=
 issued: a goroutine may not have been scheduled yet); observations are those of the terminal ones. -/
 def quiesce (st : St) (from_ : List Breakpoint.St) : St × String :=
   if st.overflow then (st, "fuel") else
-  match Breakpoint.closure 30000 from_ {} [] with
+  match Breakpoint.closure 20000000 30000 from_ {} [] 0 with
   | some all => ({ st with bp := all, terms := all.filter Breakpoint.isTerminal }, "ok")
   | none => ({ st with overflow := true }, "fuel")
 
@@ -79,6 +79,16 @@ def matchObs : List String → List String → Bool
   | [], [] => true
   | p :: ps, t :: ts => matchTok p t && matchObs ps ts
   | _, _ => false
+
+def nbOf (st : St) : Nat := match st.bp with | s :: _ => s.nb | [] => 0
+
+def addHook (st : St) (b : Nat) : St × String :=
+  if b < nbOf st then quiesce st (st.bp.map (·.addHook b)) else (st, "bad-op")
+
+def addCall (st : St) (p : String) (b : Nat) : St × String :=
+  match Breakpoint.parseProg p with
+  | some .dnext | none => (st, "bad-op")
+  | some p => if b < nbOf st then quiesce st (st.bp.map (·.addThread p b)) else (st, "bad-op")
 
 def step (st : St) : List String → St × String
   | ["inb", p, sym, i, o, pck] =>
@@ -105,12 +115,21 @@ def step (st : St) : List String → St × String
     match p.toNat?, parseKey sym i o with
     | some p, some k => (st, showList ((Agent.col k (getFrames st p)).map showPair))
     | _, _ => (st, "bad-op")
-  | ["bp"] => quiesce st [Breakpoint.St.init]
-  | ["hook"] => quiesce st (st.bp.map Breakpoint.St.addHook)
-  | ["call", p] =>
-    match Breakpoint.parseProg p with
-    | some .dnext | none => (st, "bad-op")
-    | some p => quiesce st (st.bp.map (·.addThread p))
+  | ["bp"] => quiesce st [Breakpoint.St.init 1]
+  | ["bp", k] =>
+    match k.toNat? with
+    | some k => if 1 ≤ k ∧ k ≤ 8 then quiesce st [Breakpoint.St.init k] else (st, "bad-op")
+    | none => (st, "bad-op")
+  | ["hook"] => addHook st 0
+  | ["hook", b] =>
+    match b.toNat? with
+    | some b => addHook st b
+    | none => (st, "bad-op")
+  | ["call", p] => addCall st p 0
+  | ["call", p, b] =>
+    match b.toNat? with
+    | some b => addCall st p b
+    | none => (st, "bad-op")
   | "expect" :: pat =>
     if st.overflow then (st, "fuel") else
     let all := observations st
@@ -130,7 +149,20 @@ def step (st : St) : List String → St × String
         else acc.map (fun _ => "?")) c0
       let h0 := Breakpoint.drmuHeld s0
       let held := if rest.all (fun s => Breakpoint.drmuHeld s == h0) then (if h0 then "1" else "0") else "?"
-      (st, joinSp (("released=" ++ rel) :: ("held=" ++ held) :: merged))
+      let curs := (List.range s0.nb).map fun b =>
+        if rest.all (fun s => s.cur b == s0.cur b) then
+          (match s0.cur b with | some h => toString h | none => "-") else "?"
+      -- The harness waits until everything the quiescent states agree on has happened before it
+      -- issues the next call: states that contradict these facts cannot be the real one any more.
+      let keep := fun (s : Breakpoint.St) =>
+        (if rel = "?" then true else decide (r0 ≤ Breakpoint.releasedCount s)) &&
+        (if held = "1" then Breakpoint.drmuHeld s else true) &&
+        ((List.range s0.nb).zip curs).all (fun (b, c) =>
+          if c = "?" ∨ c = "-" then true else s.cur b == s0.cur b) &&
+        (let cs := Breakpoint.callStatus s
+         cs.length == merged.length &&
+           (merged.zip cs).all (fun (m, c) => if m = "T" ∨ m = "F" then m == c else true))
+      ({ st with bp := st.bp.filter keep }, joinSp (("released=" ++ rel) :: ("held=" ++ held) :: ("cur=" ++ ",".intercalate curs) :: merged))
   | ["nobs"] => (st, toString (observations st).length ++ " " ++ toString st.bp.length)
   | _ => (st, "bad-op")
 
